@@ -61,14 +61,16 @@ def main(argv=None):
         except Exception as e:
             print('ANALYSIS-ERROR property=%s kind=internal cannot read replay file: %s' % (pid, e))
             return 2
-    for rid, fn, tier in mod.RULES:
+    for entry in mod.RULES:
+        rid, fn, tier = entry[:3]
+        advisory = len(entry) > 3 and entry[3] == 'advisory'
         if tier == 'thorough' and a.tier != 'thorough':
             continue
         if only and rid != only:
             continue
         if a.rule and not rid.startswith(a.rule):
             continue
-        ctx.run_rule(rid, fn)
+        ctx.run_rule(rid, fn, advisory=advisory)
     floors = getattr(mod, 'MIN_OBLIGATIONS', 1)
     if not only and not a.rule and len(ctx.obligations) < floors and not ctx.errors:
         e = AnalysisError('census', 'only %d obligations, floor is %d' % (len(ctx.obligations), floors))
